@@ -243,7 +243,28 @@ func (t *Task) Delete(pg wpg.Conn, n uint64) error {
 	if err != nil {
 		return fmt.Errorf("deleting block from task table: %w", err)
 	}
-	err = t.dests[0].Delete(t.ctx, pg, n)
+	// A position row stands for every block of its batch. Rows of blocks
+	// above the newest remaining position have no position anymore and will
+	// be indexed again, so they must go too -not only those >= n.
+	const lq = `
+		select num
+		from shovel.task_updates
+		where src_name = $1
+		and ig_name = $2
+		order by num desc
+		limit 1
+	`
+	var from uint64
+	err = pg.QueryRow(t.ctx, lq, t.srcName, t.destConfig.Name).Scan(&from)
+	switch {
+	case errors.Is(err, pgx.ErrNoRows):
+		from = 0
+	case err != nil:
+		return fmt.Errorf("querying for remaining position: %w", err)
+	default:
+		from++
+	}
+	err = t.dests[0].Delete(t.ctx, pg, min(from, n))
 	if err != nil {
 		return fmt.Errorf("deleting block: %w", err)
 	}
